@@ -381,6 +381,47 @@ def tiny_chain_case(rec, hub, rng):
     hub.ctx.pop("perturbation", None)
 
 
+def integer_flows_case(rec, hub, rng):
+    """every flow holds whole numbers in an integer dtype (piece counts), the stock attached to the process holds floats whose net
+    addition closes the balance only up to rounding: the default tolerance is scaled to the largest magnitude, whatever the dtypes"""
+    fd = hub.fd
+    d = SY.Def()
+    d.dims = [("t", "time", [2000, 2001, 2002], int), ("r", "region", ["EUR", "USA"], str)]
+    d.processes = ["sysenv", "use phase"]
+    d.flows = [dict(src="sysenv", dst="use phase", letters=("t", "r"), override="fl00q"), dict(src="use phase", dst="sysenv", letters=("t", "r"), override="fl01q")]
+    d.stocks = [dict(name="in use", process="use phase", letters=("t", "r"), cls="SimpleFlowDrivenStock", lm=None, time_letter="t", solver="manual")]
+    mfa = SY.build_system(fd, d)
+    fin, fout = mfa.flows["fl00q"], mfa.flows["fl01q"]
+    a = rng.integers(1000, 100000, size=fin.dims.shape)
+    b = rng.integers(1, 1000, size=fin.dims.shape)
+    fin.set_values(a.astype(np.int64 if rng.random() < 0.5 else np.int32))
+    fout.set_values(b.astype(np.int64))
+    st = mfa.stocks["in use"]
+    k = int(rng.integers(0, 4))  # 0: closes exactly; 1-2: closes up to a few ulps; 3: off by far more than the tolerance
+    rel = [0.0, EPS, 3 * EPS, 1e-6][k]
+    st.inflow[...] = a.astype(float) * (1.0 + rel)
+    st.outflow[...] = b.astype(float)
+    st.stock[...] = np.cumsum(a - b, axis=0).astype(float)
+    hub.ctx["perturbation"] = f"integer-flows:{['exact', 'ulps', 'ulps', 'far'][k]}"
+    for raise_error in (True, False):
+        try:
+            mfa.check_mass_balance(raise_error=raise_error)
+        except Exception:
+            pass
+        try:
+            mfa.check_flows(raise_error=raise_error)
+        except Exception:
+            pass
+    # a system without any flow (only stocks): the checks still have a tolerance
+    mfa0 = fd.MFASystem(dims=mfa.dims, parameters={}, processes=mfa.processes, flows={}, stocks=mfa.stocks)
+    for raise_error in (True, False):
+        try:
+            mfa0.check_mass_balance(raise_error=raise_error)
+        except Exception:
+            pass
+    hub.ctx.pop("perturbation", None)
+
+
 def perturb_pair(mfa, rng, delta):
     """+delta at one entry and -delta at another entry of the same array: totals are preserved, balances by label are not"""
     arrays = [f for f in mfa.flows.values() if f.values.size > 1 and f.values.dtype.kind == "f"]
@@ -503,6 +544,28 @@ def one(rec, hub, seed, tier, i):
                 call_flows(**kw)
             for v, pos, old in undo_list:
                 v[pos] = old
+    # a system assembled by hand whose flows dictionary is keyed by other labels than the flows' names: exceptions name FLOWS (or processes)
+    if flows and i % 3 == 1:
+        rekeyed = fd.MFASystem(dims=mfa.dims, parameters=mfa.parameters, processes=mfa.processes, flows={f"key {j}": f for j, f in enumerate(mfa.flows.values())}, stocks=mfa.stocks)
+        hub.ctx["perturbation"] = "flows-rekeyed"
+        f0 = flows[int(rng.integers(0, len(flows)))]
+        if f0.values.size and f0.values.dtype.kind == "f":
+            pos = tuple(int(x) for x in np.unravel_index(int(rng.integers(0, f0.values.size)), f0.values.shape))
+            old = f0.values[pos].copy()
+            f0.values[pos] = -abs(old) - 1.0 if rng.random() < 0.6 else np.nan
+            keys = list(rekeyed.flows.keys())
+            for exc in ([f0.name], [next(k_ for k_, f_ in rekeyed.flows.items() if f_.name == f0.name)], [flows[0].name], []):
+                for kw in (dict(exceptions=exc), dict(exceptions=exc, raise_error=True)):
+                    try:
+                        rekeyed.check_flows(**kw)
+                    except Exception:
+                        pass
+            f0.values[pos] = old
+        for raise_error in (True, False):
+            try:
+                rekeyed.check_mass_balance(raise_error=raise_error)
+            except Exception:
+                pass
     # integer-dtype flows
     if flows and i % 4 == 0:
         f = flows[0]
@@ -526,11 +589,17 @@ def run(rec, hub, tier, seed, shard, nshards, budget):
         if kk % 5 == 0:
             rec.set_case(driver="c02.tiny", seed=seed, tier=tier, shard=shard, nshards=nshards, idx=i)
             tiny_chain_case(rec, hub, case_nprng(seed, "c02.tiny", 0, i))
+        if kk % 5 == 2:
+            rec.set_case(driver="c02.intflows", seed=seed, tier=tier, shard=shard, nshards=nshards, idx=i)
+            integer_flows_case(rec, hub, case_nprng(seed, "c02.intflows", 0, i))
 
 
 def replay(rec, hub, case):
     register(hub)
     rec.set_case(**case)
+    if case["driver"] == "c02.intflows":
+        integer_flows_case(rec, hub, case_nprng(case["seed"], "c02.intflows", 0, case["idx"]))
+        return
     if case["driver"] == "c02.tiny":
         tiny_chain_case(rec, hub, case_nprng(case["seed"], "c02.tiny", 0, case["idx"]))
         return
